@@ -47,7 +47,11 @@ def raw_search(inst, which, variant):
     from matched_markets.methodology import tbrmatchedmarkets
     data, par, ids = mm.build_objects(inst, dict(variant))
     mmo = tbrmatchedmarkets.TBRMatchedMarkets(data, par)
-    res = mmo.exhaustive_search() if which == 'exh' else mmo.greedy_search()
+    from harness import core
+    try:
+      res = core.with_timeout(lambda: mmo.exhaustive_search() if which == 'exh' else mmo.greedy_search(), 150)
+    except core.CallTimeout:
+      return {'status': 'crash:DidNotReturnWithin150s', 'designs': []}
     num = {str(i): g + 1 for g, i in enumerate(ids)}
     budget_rule = which == 'exh' and inst['budget'] is not None
     designs = []
